@@ -25,7 +25,7 @@ with any declared length, long-form lengths, trailing bytes - with all enclosing
 key parse to a secret whose public key equals the parsed generated public key; an Ed25519 pair built by the harness (SHA-512, \
 clamp, base-point multiplication with curve25519-dalek) in OpenSSL DER form converts to a matching X25519 pair; PEM == DER; \
 concatenated PEM public keys parse to the same keys in order, and a bundle holding the mutated key between two valid \
-ones is accepted exactly when the mutated key is accepted on its own; canonical layouts always parse; on any input no panic; when a \
+ones is accepted exactly when the mutated key is accepted on its own; a PEM block whose payload is the PEM text of a key is rejected; canonical layouts always parse; on any input no panic; when a \
 DER input is accepted, the harness's own lenient TLV walk must extract the same key bytes, and the input must be the \
 documented structure - SEQUENCE { [INTEGER,] SEQUENCE { OID X25519 | Ed25519 }, key field of exactly 32 key bytes } with \
 nothing else inside any container (tolerated, as the DER library does on the pinned tree: tag class bits, non-minimal \
@@ -457,6 +457,17 @@ fn oracle(c: &Case, st: &mut Stats) -> Result<(), String> {
                 vec![(a, true), (b, false), (pa, true)]
             }
         };
+        // ---- a PEM block whose payload is itself the PEM text of a key is not a key
+        {
+            let nested_pub = pem("PUBLIC KEY", qpem.as_bytes(), 64, c.crlf, true);
+            let nested_priv = pem("PRIVATE KEY", ppem.as_bytes(), 64, c.crlf, true);
+            if parse_openssl_25519_pubkey(nested_pub.as_bytes()).is_ok() || parse_openssl_25519_pubkeys_pem_many(nested_pub.as_bytes()).map_or(false, |v| !v.is_empty()) {
+                return Err("a PUBLIC KEY PEM block whose payload is PEM text (not DER) is accepted as a key".into());
+            }
+            if parse_openssl_25519_privkey(nested_priv.as_bytes()).is_ok() {
+                return Err("a PRIVATE KEY PEM block whose payload is PEM text (not DER) is accepted as a key".into());
+            }
+        }
         // ---- a bundle of PEM public keys holding the mutated one: an error of one block is an error of the bundle
         if let Some((bad, _)) = inputs.iter().find(|(_, private)| !*private) {
             let k0 = x25519_dalek::x25519(util::seed32(seed[1] as u64, "c18-bundle", 0), x25519_dalek::X25519_BASEPOINT_BYTES);
